@@ -18,6 +18,11 @@ func genMocks(c *cf.Case, r *cf.Rng, prop string) {
 	}
 	c.MaxSimMs = 60000
 	if kind == 2 {
+		if r.Intn(3) == 0 {
+			cfg.X["consumerChanBuf"] = r.Pick(1, 2) - 1 // 0 or 1: messages are yielded while they are consumed
+		} else {
+			cfg.X["consumerChanBuf"] = 256
+		}
 		nparts := r.Range(1, 4)
 		id := 0
 		for p := 0; p < nparts; p++ {
@@ -60,6 +65,8 @@ func genMocks(c *cf.Case, r *cf.Rng, prop string) {
 		k := r.Pick(0, 0, 1, 2, 3, 4, 5, 2)
 		if allCheckers {
 			k = r.Pick(2, 2, 3, 4, 5)
+		} else if kind == 0 && r.Intn(8) == 0 {
+			k = 6 // a checker during which another goroutine adds one more expectation
 		}
 		c.Workload = append(c.Workload, cf.Op{Op: "expect", N: k})
 	}
